@@ -17,16 +17,21 @@ RULE = (
     "distribution __getitem__ / subs / + and radd / replace / etas-epsilons-iiv-iov; distinct by the printed "
     "collection and op list, non-trivial if >=3 variables, a joint block and >=2 state changing ops. "
     "mat: symmetric matrices n=2..6 of families PD, integer PD, PSD with exact zero eigenvalue, slightly indefinite, "
-    "strongly indefinite (incl. negative definite, hollow, |corr|>1) with optional skew noise; distinct by entries, "
+    "strongly indefinite (incl. negative definite, hollow, |corr|>1), 15% with skew noise of relative size "
+    "1e-16..1e-14; distinct by entries, "
     "non-trivial if not PD. par: symbolic collections with value dicts whose blocks are valid / invalid / "
-    "borderline; non-trivial if a joint block exists. 80-88% of the cases avoid every construct with a listed "
-    "finding, the rest contain exactly one."
+    "borderline; non-trivial if a joint block exists. 80-84% of the seq/par cases avoid every construct with a "
+    "listed finding, the rest contain exactly one (variable taken out from behind the rest of its block, zero "
+    "variance joined with fill, numeric entry or repeated symbol in an invalid block)."
 )
 ASSUMPTIONS = [
     "order: names outside the operated set keep their relative order; if every block of the new partition is "
     "already contiguous in the old order, the order may not change at all ('only as far as needed')",
-    "join: previous non-zero covariances kept, zero/new ones become fill; name_template overrides fill (docstring); "
-    "naming of template symbols is judged only when inds are given in collection order",
+    "join: previous non-zero covariances kept, zero/new ones become fill or a name_template symbol; fill != 0 is "
+    "never combined with name_template and join gets str names only (precedence / symbol indices are not part of "
+    "the property); naming of template symbols is judged only when inds are given in collection order",
+    "operands of + have fresh names and subs never renames onto an existing name (uniqueness of names is C06); "
+    "clearly non-symmetric matrices are not generated (the property quantifies over symmetric A)",
     "nearest PSD = eigenvalue clipping of the symmetric part (Higham 1988, as the docstring cites); tolerance "
     "1e-8*||A||_F because the port adds multiples of eps*||A|| in its final loop; PSD means symmetric within "
     "1e-10*||A|| and min eig >= -1e-10*||A||; |min eig| < 1e-8*||A|| is borderline (only PSD-ness judged)",
@@ -49,7 +54,6 @@ REQUIRED_MONITORS = [
     "ucp_roundtrip", "ucp_roundtrip_all_0.1", "ucp_roundtrip_signed",
 ]
 
-K_NONSYM = "C11/nearest-psd-nonsymmetric-shortcut"
 
 
 def n_cases(tier):
@@ -138,15 +142,13 @@ def run_mat(c, rng):
     family = rng.choices(["pd", "pd_int", "psd0", "slight", "strong"], [15, 5, 15, 25, 40])[0]
     S = P.gen_matrix(rng, family, n)
     r = rng.random()
-    noise = "none" if r < 0.76 else ("roundoff" if r < 0.86 else "substantial")
+    # the property quantifies over symmetric matrices: exactly symmetric, or skew noise at rounding level
+    noise = "none" if r < 0.85 else "roundoff"
     A = S.copy()
     if noise != "none":
         K = P.skew(rng, n)
         nrm = np.linalg.norm(S) or 1.0
-        eps = 10 ** rng.uniform(-16, -14) if noise == "roundoff" else 10 ** rng.uniform(-2.5, 0)
-        A = S + K / (np.linalg.norm(K) or 1.0) * nrm * eps
-        if noise == "substantial":
-            c.hit("stratum_construct:nonsymmetric")
+        A = S + K / (np.linalg.norm(K) or 1.0) * nrm * 10 ** rng.uniform(-16, -14)
     c.sample = {"kind": "mat", "family": family, "noise": noise, "n": n, "A": [[repr(float(x)) for x in row]
                                                                                    for row in A]}
     c.fp = fp_of("mat", A.tolist())
@@ -160,14 +162,8 @@ def run_mat(c, rng):
     if B is not None:
         probs = P.judge_nearest(c, A, B, noise)
         if probs:
-            key = None
-            if noise == "substantial" and np.array_equal(np.asarray(B), A):
-                # delta: the same matrix without its skew part
-                Ssym = (A + A.T) / 2
-                if not P.judge_nearest(Case(), Ssym, nearest_positive_semidefinite(Ssym.copy()), "none"):
-                    key = K_NONSYM
             fact, msg = probs[0]
-            c.violate(key, f"nearest_positive_semidefinite ({family}, n={n}, noise={noise}): {msg}",
+            c.violate(None, f"nearest_positive_semidefinite ({family}, n={n}, noise={noise}): {msg}",
                       {"sample": c.sample, "result": np.asarray(B).tolist()})
 
     # ---- conversions on a well conditioned covariance matrix of the same size
